@@ -256,6 +256,15 @@ func (vc *VC) enterLoop(li *LoopInfo, pre *State) *State {
 }
 
 func (vc *VC) bindIter(env *Env, li *LoopInfo, st *State) {
+	for _, in := range li.Header.Instrs {
+		if nx, ok := in.(*ssa.Next); ok {
+			if rg, ok := nx.Iter.(*ssa.Range); ok {
+				if it, ok := vc.iters[rg]; ok {
+					env.vars["visited"] = Val{K: KInt, S: vc.heapGet(st, it.ghost, "(Array Int Bool)")}
+				}
+			}
+		}
+	}
 	if li.rangeIdx != nil {
 		if v, ok := st.locals[li.rangeIdx]; ok {
 			env.vars["iter"] = IntV(Add(v.S, "1"), types.Typ[types.Int])
